@@ -65,11 +65,26 @@ func init() {
 				emit(op, TI(1), TB([]byte{9, 8, 7}))
 				emit(op, TI(3), TB([]byte{1, 2, 3, 4, 5, 6}))
 				emit(op, TI(65535), TB(make([]byte, 70000)))
+				// length + MTU around 2^16 (16-bit arithmetic on sizes must not wrap)
+				emit(op, TI(65535), TB([]byte{1, 2}))
+				emit(op, TI(65534), TB([]byte{1, 2, 3}))
+				emit(op, TI(65000), TB(make([]byte, 1000)))
+				emit(op, TI(55537), TB(make([]byte, 10000)))
+				emit(op, TI(55536), TB(make([]byte, 10000)))
+				emit(op, TI(32768), TB(make([]byte, 32769)))
 				emit(op, TI(1), TB(make([]byte, 300)))
 			}
 			emit(1604, TB(nil))
 			emit(1604, TB([]byte{}))
 			emit(1604, TB([]byte{0}))
+			// OpusPacket.Unmarshal: every one-byte payload (all 256 TOC bytes) and every TOC with a
+			// second byte from a boundary alphabet
+			for b := 0; b < 256; b++ {
+				emit(1604, TB([]byte{byte(b)}))
+				for _, x := range []byte{0, 1, 0x7F, 0x80, 0xFF} {
+					emit(1604, TB([]byte{byte(b), x}))
+				}
+			}
 			if tier == "thorough" {
 				for l := 0; l <= 64; l++ {
 					for mtu := 1; mtu <= 66; mtu++ {
